@@ -164,7 +164,7 @@ HOST_GROUPSUM = [
 HOST_DIRECT = [
     "batch_size = x.shape[0]",
     "input_size = self._get_input_size()",
-    "x_flat = x.reshape(batch_size, input_size).astype(BITS_TO_NP_DTYPE[self.num_bits])",
+    "x_flat = np.ascontiguousarray(x.reshape(batch_size, input_size), dtype=BITS_TO_NP_DTYPE[self.num_bits])",
     "output_size = self._get_output_size()",
     "out = np.zeros((batch_size, output_size), dtype=BITS_TO_NP_DTYPE[self.num_bits])",
     "for i in range(batch_size):\n    self.lib_fn(x_flat[i], out[i])",
